@@ -14,7 +14,7 @@ from vlib.oracles import weights
 
 LEVEL = "exploration"
 
-GROUP_NAMES = ["zeta", "alpha", "Beta", "10", "9", "g_1", "cellB", "cellA", "x", "NEU", "T-cell", "mono"]
+GROUP_NAMES = ["zeta", "count_lo", "Beta", "10", "9", "g_1", "cellB", "cellA", "x", "NEU", "T-cell", "mono"]
 
 
 def make_world(seed, mode, n_groups):
@@ -130,7 +130,8 @@ def run(chk, scratch):
                 p = os.path.join(d, ("%s.bam" % default_names[fi]) if hs % 2 == 1 else os.path.join("run%d" % fi, "reads.bam"))
                 w.write_bam(p, file_idx=fi)
                 bams.append(p)
-                labels.append("lab%d" % fi)
+                # YAML descriptions (hash seeds divisible by 4) give the labels as plain numbers: the label is the number as text
+                labels.append("lab%d" % fi if hs % 4 else "%d" % (fi + 1))
             yaml_in = None
             if hs % 4 == 0:
                 # labelled files given through a YAML description, listed in an order that is NOT the lexicographic order of their paths
@@ -138,8 +139,9 @@ def run(chk, scratch):
                 order_ = list(range(nf))[::-1]
                 with open(yaml_in, "w") as f:
                     f.write('[\n  data format: "bam",\n  {\n    name: "%s",\n    long read files: [%s],\n    labels: [%s]\n  }\n]\n' %
-                            (pipeline.PREFIX, ", ".join('"%s"' % bams[k_] for k_ in order_), ", ".join('"%s"' % labels[k_] for k_ in order_)))
+                            (pipeline.PREFIX, ", ".join('"%s"' % bams[k_] for k_ in order_), ", ".join(labels[k_] for k_ in order_)))
                 extra += ["--read_group", "file_name"]
+                truth = {k_: ("%d" % (int(v_[3:]) + 1) if v_.startswith("lab") else v_) for k_, v_ in truth.items()}
             else:
                 extra += ["--read_group", "file_name"] + ((["--labels"] + labels) if hs % 2 == 0 else [])
             if hs % 2 == 1:
@@ -156,17 +158,22 @@ def run(chk, scratch):
                 extra += ["--read_group", "read_id:_"]
             else:
                 # the table in one of three layouts: read<TAB>group (columns 0:1), group<TAB>read (1:0), read,barcode,group (0:2, comma)
-                layout = 2 if hs == 2 else (seed + hs) % 3
+                # fourth layout: barcode<TAB>group<TAB>read given as file:TABLE:2 (GROUP_COL left at its documented default 1)
+                layout = 2 if hs == 2 else (3 if hs % 5 == 4 else (seed + hs) % 3)
+                # the reference has a sequence that no BAM header lists (and no read, no gene): the table is split per BAM sequence
+                with open(os.path.join(d, "g.fa"), "a") as f:
+                    f.write(">chrUnlisted\n" + "ACGTTGCA" * 400 + "\n")
                 tbl = os.path.join(d, "groups.tsv" if layout < 2 else "groups.csv")
                 with open(tbl, "w") as f:
-                    f.write(("#read\tgroup\n", "#group\tread\n", "#read,barcode,group\n")[layout])
+                    f.write(("#read\tgroup\n", "#group\tread\n", "#read,barcode,group\n", "#barcode\tgroup\tread\n")[layout])
                     for name, g in truth.items():
                         if g != "NA":
                             # the comma-separated layout has a blank after each comma: the group is the field as it stands, blank included
-                            f.write(("%s\t%s\n" % (name, g), "%s\t%s\n" % (g, name), "%s, ACGT%d, %s\n" % (name, len(name), g))[layout])
+                            f.write(("%s\t%s\n" % (name, g), "%s\t%s\n" % (g, name), "%s, ACGT%d, %s\n" % (name, len(name), g),
+                                     "ACGT%d\t%s\t%s\n" % (len(name), g, name))[layout])
                 if layout == 2:
                     truth = {k_: (" " + v_ if v_ != "NA" else v_) for k_, v_ in truth.items()}
-                extra += ["--read_group", ("file:%s:0:1" % tbl, "file:%s:1:0" % tbl, "file:%s:0:2:," % tbl)[layout]]
+                extra += ["--read_group", ("file:%s:0:1" % tbl, "file:%s:1:0" % tbl, "file:%s:0:2:," % tbl, "file:%s:2" % tbl)[layout]]
         out = os.path.join(d, "out")
         if mode == "tag" and hs % 4 == 0:
             # integer-valued tag (e.g. HP:i:1 of haplotagged reads): the group is the value as text
